@@ -16,7 +16,9 @@
 (* the inputs only), it enters memo if the identity is new, and an output  *)
 (* file holds Written(result).  Analysis objects (boo_3d, S2, ...) live in *)
 (* `ana`: only the constructor / the state-setting method of the family    *)
-(* may change that state, and the identity of a method call contains it.   *)
+(* may change that state; the identity of a method call contains the       *)
+(* NOMINAL state (what the calls made so far imply), its value depends on  *)
+(* the ACTUAL state - the two coincide unless an impure action ran.        *)
 (* read_neighbors on the user's handle is the one routine whose meaning    *)
 (* includes a side effect: it consumes one frame (cursor + 1).             *)
 (*                                                                         *)
